@@ -687,16 +687,34 @@ func ruleR01de(c *Ctx) {
 	okTake, seenTake := true, false
 	okMax, seenMax := true, false
 	var takeCall, maxCall *ssa.Call
-	allCalls(tick, func(ci ssa.CallInstruction) {
-		if call, ok := ci.(*ssa.Call); ok {
+	// the two calls sit in tick, or in a method of the machine that tick calls for the opcode (`m.takeMax()`)
+	helpers := map[*ssa.Function]bool{}
+	var scan func(fn *ssa.Function, depth int) bool
+	scan = func(fn *ssa.Function, depth int) bool {
+		found := false
+		allCalls(fn, func(ci ssa.CallInstruction) {
+			call, ok := ci.(*ssa.Call)
+			if !ok {
+				return
+			}
 			if isCallTo(call, take) {
 				takeCall = call
+				found = true
 			}
 			if isCallTo(call, takeMax) {
 				maxCall = call
+				found = true
 			}
-		}
-	})
+			if g := staticCallee(call); g != nil && depth < 2 && fnPkgPath(origin(g)) == pkgVM && len(g.Blocks) > 0 && g != fn && !helpers[g] {
+				if scan(g, depth+1) {
+					helpers[g] = true
+					found = true
+				}
+			}
+		})
+		return found
+	}
+	scan(tick, 0)
 	if takeCall == nil || maxCall == nil {
 		c.undecided("R01d", "tick:Take/TakeMax-call-sites", tick.Pos(), "tick does not call Funding.Take / Funding.TakeMax")
 		return
@@ -731,9 +749,15 @@ func ruleR01de(c *Ctx) {
 			}
 			return s
 		},
+		Inline: func(call ssa.CallInstruction) []*ssa.Function {
+			if g := staticCallee(call); g != nil && helpers[g] {
+				return []*ssa.Function{g}
+			}
+			return nil
+		},
 		Exit: func(pc *PathCtx, s uint64, ins ssa.Instruction) {
 			ret, ok := ins.(*ssa.Return)
-			if !ok || s&1 == 0 {
+			if !ok || s&1 == 0 || pc.parent != nil {
 				return
 			}
 			seenTake = true
